@@ -59,3 +59,64 @@ Example C03_nonvacuous :
   h_op h < 16 /\ check_header h 9 = Some ReservedOp /\ length (broken h 9) = 5%nat
   /\ must_accept 3000 = true /\ must_refuse 1005 = true /\ must_refuse 1012 = false.
 Proof. vm_compute. repeat split; reflexivity. Qed.
+
+(* ---- tie C: the model functions above are what the Go SOURCE says now.
+   gen/Translated.v is produced on every run by `harness translate` from check.go /
+   frame.go as they are in the tree under test; these theorems hold for ALL arguments
+   in the range of the Go types (no sampling).  [hdr_of] reads a model header as the
+   Go struct (Rsv, OpCode as Z), [rule_err] / [close_err_err] name the Go error
+   variable of each model verdict. *)
+Require Import Translated TranslatedOk.
+
+Theorem C03_source_check_header : forall h s,
+  h_rsv h < 256 -> h_op h < 256 -> s < 256 -> (- 2 ^ 63 <= h_len h < 2 ^ 63)%Z ->
+  g_CheckHeader (hdr_of h) (Z.of_N s) = option_map rule_err (check_header h s).
+Proof. exact xl_CheckHeader. Qed.
+Print Assumptions C03_source_check_header.
+
+(* the reason enters only through utf8.ValidString, represented by valid_utf8
+   (the statement holds for any predicate put in its place) *)
+Theorem C03_source_check_close : forall c reason, c < 65536 ->
+  g_CheckCloseFrameData valid_utf8 (Z.of_N c) reason = option_map close_err_err (check_close c reason).
+Proof. exact xl_CheckCloseFrameData. Qed.
+Print Assumptions C03_source_check_close.
+
+Theorem C03_source_opcode_predicates : forall c, c < 256 ->
+  g_OpCode_IsControl (Z.of_N c) = op_is_control c /\
+  g_OpCode_IsData (Z.of_N c) = op_is_data c /\
+  g_OpCode_IsReserved (Z.of_N c) = op_is_reserved c.
+Proof.
+  exact (fun c H => conj (xl_OpCode_IsControl c H) (conj (xl_OpCode_IsData c H) (xl_OpCode_IsReserved c H))).
+Qed.
+Print Assumptions C03_source_opcode_predicates.
+
+Theorem C03_source_status_predicates : forall c, c < 65536 ->
+  (forall lo hi, g_StatusCode_In (Z.of_N c) (g_mk_StatusCodeRange (Z.of_N lo) (Z.of_N hi)) = in_range lo hi c) /\
+  g_StatusCode_Empty (Z.of_N c) = (c =? 0) /\
+  g_StatusCode_IsNotUsed (Z.of_N c) = sc_not_used c /\
+  g_StatusCode_IsProtocolSpec (Z.of_N c) = sc_protocol_spec c /\
+  g_StatusCode_IsApplicationSpec (Z.of_N c) = sc_application_spec c /\
+  g_StatusCode_IsPrivateSpec (Z.of_N c) = sc_private_spec c /\
+  g_StatusCode_IsProtocolDefined (Z.of_N c) = sc_protocol_defined c /\
+  g_StatusCode_IsProtocolReserved (Z.of_N c) = sc_protocol_reserved c.
+Proof.
+  exact (fun c H => conj (xl_StatusCode_In c) (conj (xl_StatusCode_Empty c H) (conj (xl_StatusCode_IsNotUsed c H)
+    (conj (xl_StatusCode_IsProtocolSpec c H) (conj (xl_StatusCode_IsApplicationSpec c H)
+    (conj (xl_StatusCode_IsPrivateSpec c H) (conj (xl_StatusCode_IsProtocolDefined c H)
+    (xl_StatusCode_IsProtocolReserved c H)))))))).
+Qed.
+Print Assumptions C03_source_status_predicates.
+
+Theorem C03_source_state_predicates : forall s, s < 256 ->
+  g_State_ServerSide (Z.of_N s) = st_server s /\ g_State_ClientSide (Z.of_N s) = st_client s /\
+  g_State_Extended (Z.of_N s) = st_extended s /\ g_State_Fragmented (Z.of_N s) = st_fragmented s /\
+  (forall v, v < 256 ->
+     g_State_Is (Z.of_N s) (Z.of_N v) = negb (N.land s v =? 0) /\
+     g_State_Set (Z.of_N s) (Z.of_N v) = Z.of_N (N.lor s v) /\
+     g_State_Clear (Z.of_N s) (Z.of_N v) = Z.of_N (N.ldiff s v)).
+Proof.
+  exact (fun s H => conj (xl_State_ServerSide s H) (conj (xl_State_ClientSide s H) (conj (xl_State_Extended s H)
+    (conj (xl_State_Fragmented s H) (fun v Hv => conj (xl_State_Is s H v Hv) (conj (xl_State_Set s H v Hv)
+    (xl_State_Clear s H v Hv))))))).
+Qed.
+Print Assumptions C03_source_state_predicates.
